@@ -1,4 +1,5 @@
 import Capella.Lemmas.Cache
+import Capella.Lemmas.CacheSM
 import Capella.Gen.Formats
 
 /-!
@@ -325,5 +326,232 @@ example :
     (render table termOps (openOf ["_D.svg".toList]) (.ok .fresh) ⟨true, false⟩ "x/../_D".toList (some "svg".toList) false)
       = ([], .error .notInCache) := by
   decide +kernel
+
+/-! ## Second layer: every entry point, faults, the in-memory render state, call sequences
+
+`E : Env` is fixed for the life of a diagram object (table, converters that may raise, cache configured /
+fallback flag, uuid); `q : Req` may differ from call to call (what the cache handler does for each name —
+found / `FileNotFoundError` / another exception — and what `_create_diagram` would yield); `st : St` is the
+in-memory render state (`_render`, `_error`). -/
+
+/-- **Cache hit through `render`, with converters and a handler that may raise, from any state.** If position
+`k` of the chain is the first cache-loadable converter whose name the handler does not answer with
+`FileNotFoundError`, and it answers with bytes `b`, then `render` returns `from_cache(b)` converted forward —
+or the exception of the first converter that raises (unless that is a `KeyError`, which the code takes for
+"not cached"); the object's in-memory state is neither read nor changed. -/
+theorem render_hit_any_state {B D : Type} (E : Env B D) (st : St D) (q : Req B D) (f i : Str) (ch : List Conv)
+    (pretty pe : Bool) (hf : E.T.entry f = some i) (hch : E.T.chain i = some ch) (hc : E.cfg.cache = true)
+    (k : Nat) (c : Conv) (e : Str) (b : B) (hn : Nearest (stopf q.openf) E.u ch k c e (.inl b))
+    (hnk : ∀ x, (hitResult E.ops ch k c b).2 = .error x → x.isKey = false) :
+    renderS E st q (some f) pretty pe =
+      (st, (probedNames E.u ch k).map .opened ++ (hitResult E.ops ch k c b).1, (hitResult E.ops ch k c b).2) :=
+  renderS_hit E st q pretty pe hf hch hc hn hnk
+
+/-- **An `OSError` of the handler other than `FileNotFoundError` propagates** (a directory called
+`<uuid>.svg`, `PermissionError`): `render` raises it after having asked only for this diagram's names up to
+that one; nothing behind it is probed, no converter and not the internal renderer runs — even with the
+fallback enabled. -/
+theorem handler_error_propagates {B D : Type} (E : Env B D) (st : St D) (q : Req B D) (f i : Str) (ch : List Conv)
+    (pretty pe : Bool) (hf : E.T.entry f = some i) (hch : E.T.chain i = some ch) (hc : E.cfg.cache = true)
+    (k : Nat) (c : Conv) (e n : Str) (hn : Nearest (stopf q.openf) E.u ch k c e (.inr (n, .other))) :
+    renderS E st q (some f) pretty pe =
+      (st, (probedNames E.u ch k).map .opened, .error (.raised (.opened (E.u ++ e)) .other)) :=
+  renderS_raises E st q pretty pe hf hch hc hn
+
+/-- **All paths: no value of another diagram, no partially converted value.** Whatever the converters and the
+handler do (raise anywhere), whatever was rendered before: if `render(fmt)` hands back a value at all, it is
+either the *complete* forward conversion (`runLoad` of the fault-free interpretation: every converter in
+front ran) of `from_cache` of the bytes found under this diagram's own name `u ++ e`, or — only without a
+cache or with the fallback enabled — the complete conversion of the internal rendering. -/
+theorem no_partial_no_foreign_value {B D : Type} (E : Env B D) (ops : Ops B D) (ha : Agrees E.ops ops)
+    (st : St D) (q : Req B D) (f : Str) (pretty pe : Bool) (st' : St D) (tr : List Ev) (d : D)
+    (h : renderS E st q (some f) pretty pe = (st', tr, .ok d)) :
+    ∃ i ch, E.T.entry f = some i ∧ E.T.chain i = some ch ∧
+      ((E.cfg.cache = true ∧ st' = st ∧ ∃ k c e b, ch[k]? = some c ∧ usableFor E.u c = some e ∧
+          q.openf (E.u ++ e) = .found b ∧ d = runLoad ops (ch.take k) (ops.fromCache c.id b))
+       ∨ ((E.cfg.cache = false ∨ E.cfg.allowRender = true) ∧
+          ∃ d0, (freshSt E.ops st q.create pe).result = .ok d0 ∧ d = runChain ops pretty ch d0)) := by
+  obtain ⟨i, ch, hf, hch, hcase⟩ := renderS_ok E st q f pretty pe h
+  refine ⟨i, ch, hf, hch, ?_⟩
+  rcases hcase with ⟨hc, hst, k, c, e, b, d0, hk, hu, ho, hfc, hrun⟩ | ⟨hfl, d0, hres, hrun⟩
+  · refine .inl ⟨hc, hst, k, c, e, b, hk, hu, ho, ?_⟩
+    have hd0 := ha.fromCache _ _ _ hfc
+    have := (runLoadF_ok_complete ha (tr := (runLoadF E.ops (ch.take k) d0).1) (by rw [← hrun])).1
+    rw [this, hd0]
+  · refine .inr ⟨hfl, d0, hres, ?_⟩
+    exact (runChainF_ok_complete ha (tr := (runChainF E.ops pretty ch d0).1) (by rw [← hrun])).1
+
+/-- **The cache is consulted on every render of a file format, whatever happened before on this object.**
+For every history `pre` of calls (any entry points, any cache contents, faults and renderer outcomes along the
+way) from any initial state: when the lookup of the last call is decided by the cache (fallback off, or
+`__load_cache` does not end in "not cached"), its output — trace and result — is the output of the same call
+on a fresh object. (Induction over the list of calls.) -/
+theorem cache_consulted_whatever_happened_before {B D : Type} (E : Env B D) (hc : E.cfg.cache = true)
+    (pre : List (Req B D × Entry)) (st0 : St D) (q : Req B D) (f : Str) (pretty pe : Bool)
+    (hd : Decided E q f) :
+    run E st0 (pre ++ [(q, .render (some f) pretty pe)]) =
+      run E st0 pre ++ run E .empty [(q, .render (some f) pretty pe)] ∧
+    stateAfter E st0 (pre ++ [(q, .render (some f) pretty pe)]) = stateAfter E st0 pre := by
+  induction pre generalizing st0 with
+  | nil =>
+    have h := renderS_state_irrelevant E st0 .empty q f pretty pe hc hd
+    simp only [List.nil_append, run, stateAfter, step, liftOut]
+    rw [h]
+    exact ⟨rfl, rfl⟩
+  | cons p rest ih =>
+    obtain ⟨q0, en0⟩ := p
+    simp only [List.cons_append, run, stateAfter]
+    obtain ⟨h1, h2⟩ := ih (step E st0 q0 en0).1
+    exact ⟨by rw [h1]; rfl, h2⟩
+
+/-- `render` of a file format with a decided lookup never touches the in-memory state, and `render(None)` /
+a fallback render never touch the cache result of later calls: the two memories are independent. -/
+theorem render_fmt_keeps_state {B D : Type} (E : Env B D) (st : St D) (q : Req B D) (f : Str) (pretty pe : Bool)
+    (hc : E.cfg.cache = true) (hd : Decided E q f) : (renderS E st q (some f) pretty pe).1 = st := by
+  rw [renderS_state_irrelevant E st st q f pretty pe hc hd]
+
+/-- **Miss with fallback = rendering without a cache, in every state**: the probes, then exactly what the same
+object in the same state does when no cache is configured. -/
+theorem fallback_equals_uncached_any_state {B D : Type} (E : Env B D) (st : St D) (q : Req B D) (f i : Str)
+    (ch : List Conv) (pretty pe : Bool) (hf : E.T.entry f = some i) (hch : E.T.chain i = some ch)
+    (hc : E.cfg.cache = true) (ha : E.cfg.allowRender = true) (hn : NoneCached (stopf q.openf) E.u ch) (a : Bool) :
+    let un := renderS { E with cfg := ⟨false, a⟩ } st q (some f) pretty pe
+    renderS E st q (some f) pretty pe =
+      (un.1, ((ch.filterMap (usableFor E.u)).map (E.u ++ ·)).map .opened ++ un.2.1, un.2.2) := by
+  simp only
+  rw [renderS_miss_allow E st q pretty pe hf hch hc ha hn,
+    renderS_nocache { E with cfg := ⟨false, a⟩ } st q pretty pe hf hch rfl]
+  rfl
+
+/-- **The other entry points on a hit**: whenever `render` hands back a value, `as_<fmt>` returns the same,
+`__html__` wraps the one for `svg` in the figure, `__repr__` (drawing) appends the one for `termgraphics`, and
+`save` writes the same value (if it is `str`/`bytes`) — same trace, same state. -/
+theorem entry_points_agree_with_render {B D : Type} (E : Env B D) (st : St D) (q : Req B D) :
+    (∀ f st' tr d, renderS E st q (some f) false true = (st', tr, .ok d) → asFmtS E st q f = (st', tr, .ok d)) ∧
+    (∀ st' tr d, renderS E st q (some svgName) false true = (st', tr, .ok d) →
+        htmlS E st q = (st', tr, .ok (.figure d))) ∧
+    (∀ st' tr d, renderS E st q (some termgraphics) false true = (st', tr, .ok d) →
+        reprS E st q true = (st', tr, .ok (.drawn d))) ∧
+    (∀ f pretty pe st' tr d, renderS E st q (some f) pretty pe = (st', tr, .ok d) →
+        saveS E st q true f pretty pe =
+          if E.ops.writable d then (st', tr, .ok (.written none d)) else (st', tr, .error .typeError)) := by
+  refine ⟨fun f _ _ _ h => asFmtS_ok E st q f h, fun _ _ _ h => htmlS_ok E st q h,
+    fun _ _ _ h => reprS_ok E st q h, ?_⟩
+  intro f pretty pe st' tr d h
+  rw [saveS_given, h]
+
+/-- **The other entry points on a miss without fallback**, in every state: `as_<fmt>` is the "render"-stage
+error image of the not-in-cache error through the whole chain, `__repr__` falls back to the short form, `save`
+raises "not in cache"; none of them runs the internal renderer (no `fresh` in the trace besides what the
+chain conversion of the error image shows) and the state is unchanged. -/
+theorem entry_points_on_miss {B D : Type} (E : Env B D) (st : St D) (q : Req B D) (f i : Str) (ch : List Conv)
+    (hf : E.T.entry f = some i) (hch : E.T.chain i = some ch) (hc : E.cfg.cache = true)
+    (ha : E.cfg.allowRender = false) (hn : NoneCached (stopf q.openf) E.u ch) :
+    asFmtS E st q f =
+      (st, ((ch.filterMap (usableFor E.u)).map (E.u ++ ·)).map .opened ++ [.errImage .render]
+            ++ (runChainF E.ops false ch (E.ops.errImage .render (.base .notInCache))).1,
+       (runChainF E.ops false ch (E.ops.errImage .render (.base .notInCache))).2) ∧
+    (∀ pretty pe, saveS E st q true f pretty pe =
+      (st, ((ch.filterMap (usableFor E.u)).map (E.u ++ ·)).map .opened, .error (.base .notInCache))) ∧
+    (f = termgraphics → reprS E st q true =
+      (st, ((ch.filterMap (usableFor E.u)).map (E.u ++ ·)).map .opened, .ok .short)) := by
+  refine ⟨asFmtS_miss E st q hf hch hc ha hn, ?_, ?_⟩
+  · intro pretty pe
+    rw [saveS_given, renderS_miss_noallow E st q pretty pe hf hch hc ha hn]
+  · intro hft; subst hft
+    exact reprS_miss E st q hf hch hc ha hn
+
+/-- **`_repr_mimebundle_` on a hit**: if at least one selected MIME format is cached, the bundle consists of
+exactly the cached ones; each item is `from_cache` of the bytes found under this diagram's own name
+`u ++ ext` of that format's converter; the in-memory state is untouched (in particular nothing is rendered). -/
+theorem mimebundle_hit {B D : Type} (E : Env B D) (hc : E.cfg.cache = true) (st : St D) (q : Req B D)
+    (sel : Str → Bool) (draw : Bool) (tr : List Ev) (it : Str × D) (items : List (Str × D))
+    (h : bundleCached E q (bundleFormats E sel) = (tr, .ok (it :: items))) :
+    mimebundleS E st q sel draw = (st, tr, .ok (.bundle (it :: items))) ∧
+    ∀ m d, (m, d) ∈ it :: items → ∃ c e b, (m, c) ∈ bundleFormats E sel ∧ usableFor E.u c = some e ∧
+      q.openf (E.u ++ e) = .found b ∧ E.ops.fromCache c.id b = .ok d :=
+  ⟨mimebundleS_cached E st q sel draw h, bundleCached_items E q hc _ tr _ h⟩
+
+/-! ### `_repr_mimebundle_` on a miss: the code does NOT satisfy the statement (known finding) -/
+
+private def envT (u : Str) (cfg : Cfg) (fs : ConvFaults) : Env Str Term :=
+  { T := table, ops := termOpsF fs, cfg := cfg, u := u, name := "N".toList, mimes := mimes }
+
+/-- what the property asks of the MIME bundle: with a cache configured and the fallback off the internal
+renderer never runs -/
+def mimebundle_respects_fallback_full : Prop :=
+  ∀ (u : Str) (present : List Str) (inc : Option (List Str)) (exc : List Str) (draw : Bool),
+    Ev.fresh ∉ (mimebundleS (envT u ⟨true, false⟩ []) .empty ⟨openOfF present [], .ok .fresh⟩ (selOf inc exc) draw).2.1
+
+/-- … and it does: empty cache, default `include` — `__render_fresh({})` is called unconditionally
+(signature `mimebundle|fresh-without-fallback`, replayed on the implementation by the monitor). -/
+theorem mimebundle_respects_fallback_full_fails : ¬ mimebundle_respects_fallback_full := by
+  intro h
+  exact absurd (h "_d".toList [] none [] false) (by decide +kernel)
+
+/-- the part that holds: whenever a selected format is cached (`mimebundle_hit`), and always when nothing is
+selected, the renderer does not run and the state stays as it is -/
+theorem mimebundle_respects_fallback_partial {B D : Type} (E : Env B D) (st : St D) (q : Req B D)
+    (sel : Str → Bool) (draw : Bool) (hsel : bundleFormats E sel = []) :
+    mimebundleS E st q sel draw = (st, [], .ok .bundleNone) := by
+  unfold mimebundleS
+  simp [hsel]
+
+/-! ### non-vacuity of the second layer (generated table, free interpretation, injected faults) -/
+
+private def svgF : Str := dU ++ ".svg".toList
+private def pngF : Str := dU ++ ".png".toList
+private def okReq (present : List Str) (bad : List (Str × ExcKind)) : Req Str Term :=
+  ⟨openOfF present bad, .ok .fresh⟩
+
+-- the seeded change C19-r4m2 as a history: render(None) fills the in-memory state, then render("svg") must
+-- still serve the cached file, and a diagram that is not cached must still be refused
+example :
+    run (envT dU ⟨true, false⟩ []) .empty
+      [(okReq [] [], .render none false true), (okReq [svgF] [], .render (some "svg".toList) false true),
+       (okReq [] [], .render (some "svg".toList) false true), (okReq [] [], .asFmt "svg".toList)]
+    = [([.fresh], .ok (.value .fresh)),
+       ([.opened svgF, .fromCache svgId], .ok (.value (.fromCache svgId (.file svgF)))),
+       ([.opened svgF], .error (.base .notInCache)),
+       ([.opened svgF, .errImage .render, .call "convert_svgdiagram".toList, .convert svgId],
+        .ok (.value (.convert svgId (.call "convert_svgdiagram".toList (.errImage .render .notInCache)))))] := by
+  decide +kernel
+
+-- PNG conversion raises (no cairosvg): png from a cached svg is an error, never the half-converted svg text
+example :
+    (renderS (envT dU ⟨true, true⟩ [("convert".toList, pngId, .other)]) .empty (okReq [svgF] [])
+      (some "png".toList) false true).2
+    = ([.opened pngF, .opened svgF, .fromCache svgId, .convert pngId], .error (.raised (.convert pngId) .other)) := by
+  decide +kernel
+
+-- a directory called `<uuid>.png`: the OSError propagates although `<uuid>.svg` is cached and fallback is on
+example :
+    (renderS (envT dU ⟨true, true⟩ []) .empty (okReq [svgF] [(pngF, .other)]) (some "png".toList) false true).2
+    = ([.opened pngF], .error (.raised (.opened pngF) .other)) := by
+  decide +kernel
+
+-- a `KeyError` raised by the handler is taken for "not cached" (as coded)
+example :
+    (renderS (envT dU ⟨true, false⟩ []) .empty (okReq [svgF] [(pngF, .keyError)]) (some "png".toList) false true).2
+    = ([.opened pngF], .error (.base .notInCache)) := by
+  decide +kernel
+
+-- save / __html__ / __repr__ / the MIME bundle served from the cache
+example :
+    run (envT dU ⟨true, false⟩ []) .empty
+      [(okReq [svgF] [], .save false "svg".toList false true), (okReq [svgF] [], .html),
+       (okReq [pngF] [], .repr true), (okReq [pngF] [], .mimebundle none [] false),
+       (okReq [svgF] [], .save true "svgdiagram".toList false true)]
+    = [([.opened svgF, .fromCache svgId], .ok (.written (some ("N (_d1).svg".toList)) (.fromCache svgId (.file svgF)))),
+       ([.opened svgF, .fromCache svgId], .ok (.figure (.fromCache svgId (.file svgF)))),
+       ([.opened pngF, .fromCache pngId, .convert "TerminalGraphicsFormat".toList],
+        .ok (.repr (.drawn (.convert "TerminalGraphicsFormat".toList (.fromCache pngId (.file pngF)))))),
+       ([.opened pngF, .fromCache pngId, .opened svgF],
+        .ok (.bundle [("image/png".toList, .fromCache pngId (.file pngF))])),
+       ([], .error (.base .notInCache))] := by
+  decide +kernel
+
+-- the hypotheses of `cache_consulted_whatever_happened_before` are met (fallback off)
+example : Decided (envT dU ⟨true, false⟩ []) (okReq [svgF] []) "svg".toList := .inl rfl
 
 end Capella.Props.C19
